@@ -14,7 +14,7 @@ import math
 
 from . import common
 from .c01 import (MATS, SCALARS, bits, build, cell_ok, compare_attrs, ctor_words, differs, fail_once, first_principles, fl, flat,
-                  gen_angles, gen_base, gen_lengths, gen_rot, impl_attrs, params_of_base, parse_attrs, repr_class, STRATA)
+                  gen_angles, gen_base, gen_lengths, gen_rot, impl_attrs, leanchecker, params_of_base, parse_attrs, repr_class, STRATA)
 
 NAMES = ["a", "b", "c", "alpha", "beta", "gamma"]
 
@@ -321,6 +321,8 @@ def gen_history(rng, nmax, with_error):
 
 def qtag(q):
     """root-cause tag of an oracle quantity (attribute name / clause) used to report each cause once"""
+    if " untouched by " in q:
+        return "untouched"
     return q.split(" equals")[0].split(" of Lattice(base")[0].split(" (")[0]
 
 
@@ -499,6 +501,8 @@ def run(ck):
                        "a step that raises is outside the quantifier (the real object is then left half-updated); only the error kind is compared",
                        "in-place mutation of the array attributes by the caller is outside the model (the arrays are documented read-only)",
                        "objects are compared through their public attributes; intermediate cells are generated well-conditioned"]
+    if ok and not quick:
+        leanchecker(ck, "DS.Props.C10")
     if not ok and not ck.violations:
         fail_once(ck, "lean-build", "Lean obligations of C10 no longer check: %r" % info["failed_modules"],
                   {"kind": "proof-obligation", "theorem": info["failed_modules"], "errors": info["errors"]}, no_failing_input=True)
